@@ -14,8 +14,10 @@ import (
 	"hash/fnv"
 	"math/rand"
 	"os"
+	"runtime/pprof"
 	"sort"
 	"strings"
+	"syscall"
 	"time"
 
 	"github.com/lianxiangcloud/linkchain/types"
@@ -256,27 +258,33 @@ type replayJob struct {
 	MaxSteps int    `json:"max_steps"` // per behaviour
 	Seconds  int    `json:"seconds"`   // time budget of the job
 	Dir      string `json:"dir"`
-	Only     []int  `json:"only,omitempty"` // replay mode: exactly this group sequence is not used; see Actions
+	Corrupt  bool   `json:"corrupt,omitempty"` // negative control: the expected pool content is corrupted
 }
 
 type jobResult struct {
-	Behaviours   int              `json:"behaviours"`
-	Steps        int              `json:"steps"`
-	Nontrivial   int              `json:"nontrivial"`
-	Targets      int              `json:"targets"`
-	Covered      int              `json:"covered"`
-	EdgesCovered int              `json:"edges_covered"`
-	Offers       int              `json:"offers"` // CreateBlock+PreRunBlock+cold CheckBlock evaluations
-	Commits      int              `json:"commits"`
-	Boots        int              `json:"boots"`
-	Nondet       int              `json:"nondet"` // steps at which the model allowed several outcomes
-	Violations   []core.Violation `json:"violations"`
-	Drift        []string         `json:"drift"`
-	DriftBeh     int              `json:"drift_behaviours"`
-	Infra        []string         `json:"infra"`
-	Sample       interface{}      `json:"sample"`
-	TimedOut     bool             `json:"timed_out"`
-	ByOp         map[string]int   `json:"by_op"`
+	Behaviours    int               `json:"behaviours"`
+	Steps         int               `json:"steps"`
+	Nontrivial    int               `json:"nontrivial"`
+	Targets       int               `json:"targets"`
+	Covered       int               `json:"covered"`
+	EdgesCovered  int               `json:"edges_matched"`
+	Offers        int               `json:"offers"` // CreateBlock+PreRunBlock+cold CheckBlock evaluations
+	Commits       int               `json:"commits"`
+	Boots         int               `json:"boots"`
+	Nondet        int               `json:"nondet"` // steps at which the model allowed several outcomes
+	Slow          int               `json:"slow"`   // behaviours abandoned because the process was starved
+	LightCache    bool              `json:"light_cache"`
+	Violations    []core.Violation  `json:"violations"`
+	Drift         []string          `json:"drift"`
+	DriftBeh      int               `json:"drift_behaviours"`
+	Infra         []string          `json:"infra"`
+	Sample        interface{}       `json:"sample"`
+	TimedOut      bool              `json:"timed_out"`
+	ByOp          map[string]int    `json:"by_op"`
+	Unconfirmed   map[string]int    `json:"unconfirmed"`
+	UnconfirmedEx map[string]string `json:"unconfirmed_example"`
+	CPU           float64           `json:"cpu_s"`
+	Wall          float64           `json:"wall_s"`
 }
 
 type runner struct {
@@ -290,10 +298,12 @@ type runner struct {
 	target   []bool
 	left     int
 	distinct map[[20]byte]bool
+	offerOK  map[int]bool // model states whose offer was already executed + cold-checked (same txs, same committed state)
 	out      *bufio.Writer
 	deadline time.Time
 
 	// the current behaviour
+	began   time.Time
 	p       *pair
 	cur     int
 	trace   []string
@@ -351,7 +361,9 @@ type stateDiff struct {
 	ledger, check, pool, cache string
 }
 
-func (d stateDiff) none() bool { return d.ledger == "" && d.check == "" && d.pool == "" && d.cache == "" }
+func (d stateDiff) none() bool {
+	return d.ledger == "" && d.check == "" && d.pool == "" && d.cache == ""
+}
 
 func compare(o *obs, m *mState) (d stateDiff) {
 	if !sameInts(o.Ln, m.Ln) || !sameInts(o.Lb, m.Lb) || !sameInts(sortedCopy(o.Spent), sortedCopy(m.Spent)) {
@@ -432,7 +444,7 @@ func (r *runner) probe() (kind, detail string) {
 	var cs []cand
 	for _, id := range r.g.meta.Use {
 		d := r.g.meta.Txs[id-1]
-		if d.K != "spend" && d.Basic {
+		if d.Basic {
 			cs = append(cs, cand{id, d.S, d.N})
 		}
 	}
@@ -494,6 +506,14 @@ func (r *runner) step(gi int) int {
 	grp := &r.g.groups[gi]
 	a := &grp.a
 	from := r.g.parsed[grp.from]
+	if a.Op == "boot" {
+		r.began = time.Now()
+	} else if time.Since(r.began) > 15*time.Second {
+		// the code has wall-clock behaviour (cache entries of committed transactions expire after
+		// 30 s): a behaviour that was starved that long is abandoned without a verdict
+		r.res.Slow++
+		return stepEnd
+	}
 	r.trace = append(r.trace, grp.act)
 	r.res.Steps++
 	r.res.ByOp[opName(a)]++
@@ -582,13 +602,15 @@ func (r *runner) step(gi int) int {
 	pk, pd := r.p.offeredInvariants(o.reapTxs)
 	if pk != "" {
 		pk = "offered/" + pk
-	} else {
+	} else if match < 0 || !r.offerOK[r.g.edges[match].to] {
 		k, dd, ev := r.p.offerExecutes()
 		if ev {
 			r.res.Offers++
 		}
 		if k != "" {
 			pk, pd = "offered-not-executable/"+k, dd
+		} else if match >= 0 {
+			r.offerOK[r.g.edges[match].to] = true
 		}
 	}
 	extra := map[string]interface{}{"observed": o, "expected_state": json.RawMessage(r.g.states[r.g.edges[ref].to])}
@@ -597,7 +619,7 @@ func (r *runner) step(gi int) int {
 		extra["verdict"] = implVerdict
 	}
 	// root cause first: a state check that failed (or a refused submission) changed the speculative state
-	if d.check != "" && d.ledger == "" {
+	if d.check != "" && d.ledger == "" && !verdictMismatch {
 		key := "check-state-diverged/" + opName(a)
 		what := "the speculative state left the specification"
 		if r.lowFeeDepositChecked(a, from, to) {
@@ -622,7 +644,10 @@ func (r *runner) step(gi int) int {
 			extra["consequence"] = pk + ": " + pd
 			r.violate(key, fmt.Sprintf("%s (%s); consequence: %s: %s", what, d.check, pk, pd), extra)
 		} else {
-			r.drift("%s (%s) without a property-level consequence", what, d.check)
+			r.res.Unconfirmed[key]++
+			if r.res.UnconfirmedEx[key] == "" {
+				r.res.UnconfirmedEx[key] = fmt.Sprintf("[%s, %s] %s (%s) without a property-level consequence after %s", r.job.Config, r.w.in.Name, what, d.check, strings.Join(r.trace, " "))
+			}
 		}
 		return stepEnd
 	}
@@ -648,6 +673,9 @@ func (r *runner) step(gi int) int {
 	case verdictMismatch:
 		r.drift("AddTx(%d) returned %q, the specification predicts %q", a.T, implVerdict, a.V)
 		r.freeRun(4)
+	case d.pool != "" && strings.HasPrefix(d.pool, "Reap") && r.sameUpToInterleaving(o.Reap, to.Reap):
+		// same transactions, every sender's nonces in the same order: how senders interleave is not in the property
+		r.drift("%s (senders interleaved differently)", d.pool)
 	case d.pool != "":
 		what := "sizes"
 		if strings.HasPrefix(d.pool, "Reap") {
@@ -661,6 +689,34 @@ func (r *runner) step(gi int) int {
 		return stepOK
 	}
 	return stepEnd
+}
+
+// sameUpToInterleaving: the same transactions, and per sender (and for the spends) the same order.
+func (r *runner) sameUpToInterleaving(a, b []int) bool {
+	if len(a) != len(b) {
+		return false
+	}
+	split := func(x []int) map[int][]int {
+		m := map[int][]int{}
+		for _, id := range x {
+			if id <= 0 || id > len(r.g.meta.Txs) {
+				return nil
+			}
+			s := r.g.meta.Txs[id-1].S
+			m[s] = append(m[s], id)
+		}
+		return m
+	}
+	ma, mb := split(a), split(b)
+	if ma == nil || mb == nil || len(ma) != len(mb) {
+		return false
+	}
+	for s, x := range ma {
+		if !sameInts(x, mb[s]) {
+			return false
+		}
+	}
+	return true
 }
 
 // pathTo: BFS from state s to the nearest state with an uncovered target group.
@@ -769,8 +825,15 @@ func (r *runner) walks() {
 func replayChild(c *core.Ctx, job replayJob) {
 	out := bufio.NewWriter(os.Stdout)
 	defer out.Flush()
-	res := &jobResult{ByOp: map[string]int{}}
+	res := &jobResult{ByOp: map[string]int{}, Unconfirmed: map[string]int{}, UnconfirmedEx: map[string]string{}}
+	t0 := time.Now()
 	finish := func() {
+		var ru syscall.Rusage
+		if syscall.Getrusage(syscall.RUSAGE_SELF, &ru) == nil {
+			res.CPU = float64(ru.Utime.Sec+ru.Stime.Sec) + float64(ru.Utime.Usec+ru.Stime.Usec)/1e6
+		}
+		res.Wall = time.Since(t0).Seconds()
+		res.LightCache = lightMgrType != nil && !lightCacheBroken
 		rj, _ := json.Marshal(res)
 		fmt.Fprintf(out, "RESULT %s\nDONE\n", rj)
 	}
@@ -780,8 +843,23 @@ func replayChild(c *core.Ctx, job replayJob) {
 		finish()
 		return
 	}
+	if pf := os.Getenv("C15_PROF"); pf != "" { // development aid
+		if f, err := os.Create(pf); err == nil {
+			pprof.StartCPUProfile(f)
+			defer pprof.StopCPUProfile()
+		}
+	}
 	in := instTable[job.Inst%len(instTable)]
-	r := &runner{g: g, job: job, res: res, out: out, distinct: map[[20]byte]bool{},
+	if job.Corrupt {
+		// negative control: every state with something in goodTxs expects one transaction less
+		for _, m := range g.parsed {
+			if n := len(m.Good); n > 0 && len(m.Reap) > 0 {
+				m.Good = m.Good[:n-1]
+				m.Reap = m.Reap[1:]
+			}
+		}
+	}
+	r := &runner{g: g, job: job, res: res, out: out, distinct: map[[20]byte]bool{}, offerOK: map[int]bool{},
 		rng:      rand.New(rand.NewSource(c.Seed*7919 + int64(job.Part)*104729 + int64(len(job.Config)))),
 		deadline: time.Now().Add(time.Duration(job.Seconds) * time.Second)}
 	r.w = newWorld(in, g.meta.Txs, g.meta.Ns, g.meta.Ncoins, job.Dir)
@@ -798,6 +876,26 @@ func replayChild(c *core.Ctx, job replayJob) {
 		}
 	}
 	res.Targets = r.left
+	// first the pairs where the pool's logic runs (commits, accepted submissions), then the
+	// refused submissions and explicit reaps: a tour cut by its time budget has covered the former
+	all := r.target
+	important := make([]bool, len(all))
+	nImportant := 0
+	for gi := range g.groups {
+		a := &g.groups[gi].a
+		if all[gi] && (a.Op == "commit" || a.Op == "boot" || (a.Op == "add" && accepted(a.V))) {
+			important[gi] = true
+			nImportant++
+		}
+	}
+	r.target, r.left = important, nImportant
+	r.tour()
+	r.target, r.left = all, 0
+	for gi := range all {
+		if all[gi] && !r.gcov[gi] {
+			r.left++
+		}
+	}
 	r.tour()
 	res.Covered = res.Targets - r.left
 	r.walks()
